@@ -135,6 +135,9 @@ pub fn main(args: Args) {
         ("libraries", 4),
         ("arms", 3),
         ("template_kinds", 10),
+        ("instances_with_constant_tied_ports", 15),
+        ("compound_cells_in_flattened_children", 15),
+        ("ao22_cells_in_flattened_children", 3),
     ]);
 }
 
@@ -269,6 +272,12 @@ pub fn report(run: &Run, o: &Opts, i: u64, r: Result<CaseOut, PanicInfo>) {
         }
     }
     if evaluated > 0 {
+        if arm == "default" && out.const_tied > 0 {
+            run.count("hierarchy_designs_with_constant_tie_offs", 1);
+            run.count("instances_with_constant_tied_ports", out.const_tied as i64);
+            run.count("compound_cells_in_flattened_children", out.child_compound.0 as i64);
+            run.count("ao22_cells_in_flattened_children", out.child_compound.1 as i64);
+        }
         if arm == "default" {
             run.count("programs", 1);
             run.seen("template_kinds", &out.kind);
